@@ -30,7 +30,8 @@ TOOLS = ("git", "diff3", "builtin")
 
 # per-side action lists
 ACTS_CODE = ["keep", "del", "src1", "src2", "src3", "src4", "src6", "rerun", "ec", "out_edit", "out_edit2",
-             "out_clear", "out_add", "md_edit", "md_add", "md_del", "md_collapsed", "id"]
+             "out_clear", "out_add", "out_add2", "md_edit", "md_add", "md_del", "md_collapsed", "id",
+             "tag_front", "tag_back"]
 ACTS_SMALL = ["keep", "del", "src1", "src2", "rerun", "out_edit", "out_edit2", "md_edit"]
 ACTS_MD = ["keep", "del", "src1", "src2", "src3", "src4", "md_edit", "att_add", "att_del", "att_edit",
            "att_rename", "id"]
@@ -319,11 +320,12 @@ CONFLICT_SCRIPTS = [
 
 
 # --------------------------------------------------------------------- shards
-QUICK_TEMPLATES = ["codeA", "codeB", "mdAtt", "codeRes2", "codeS", "raw", "codeJobj", "codeErr"]
+QUICK_TEMPLATES = ["codeA", "codeB", "mdAtt", "codeRes2", "codeS", "raw", "codeJobj", "codeErr", "codeT"]
 
 
 ACTS_INS = ["keep", "del", "src1"]
 ACTS_F13 = ["src1", "src4"]
+ACTS_TAGS = ["tag_front", "tag_back"]
 ACTS_PAIR = ["keep", "del", "src1", "src2", "rerun", "md_edit"]
 
 
